@@ -157,6 +157,21 @@ reg(
 )
 
 
+reg(
+    "C20",
+    "translation_validation",
+    "Every DSV engine (scalar reference, word-at-a-time scalar, SSE2, AVX2, BMI2) is evaluated from MIR as a whole builder on a finite "
+    "structured family: configurations with distinct delimiter/quote/newline bytes including values >= 0x80, every relevant byte value at "
+    "chunk lanes 31/32 and in the padded tail, and quote-carry texts that open a quoted field in one 64-byte chunk and close it in the next; "
+    "markers and newlines bit streams are compared with the quote-aware definition (hence with each other). T1 decides the dispatcher incl. the "
+    "two-feature BMI2 arm. Boundary-complete, not exhaustive over byte strings.",
+    [only_cfgs(_lazy("dsvtab", "rule_dsv"), ["cli"]), T1_ALL],
+    quick=["cli"],
+    technique="finite-domain evaluation of engine MIR (whole builders) vs the quote-aware definition + target-feature dominance",
+    design_ref="§3 CLASS/CASCADE/CARRY (realised as DSVTAB), §4 C20",
+)
+
+
 def run(pid, tier, only=None, replay=None):
     if pid not in REGISTRY:
         print("property %s is not claimed (see MANIFEST.not_applicable)" % pid)
